@@ -2056,7 +2056,7 @@ void eval_instruction (const char *p) {
                 if ((sp - 1)->type != T_NUMBER)
                   error ("*Buffer indexes must be integers.");
 
-                if (((sp - 1)->u.number > (int64_t)sp->u.buf->size) || ((sp - 1)->u.number < 0))
+                if (((sp - 1)->u.number >= (int64_t)sp->u.buf->size) || ((sp - 1)->u.number < 0))
                   error ("*Buffer index out of bounds.");
                 i = sp->u.buf->item[(sp - 1)->u.number];
                 free_buffer (sp->u.buf);
@@ -2119,7 +2119,7 @@ void eval_instruction (const char *p) {
                 if ((sp - 1)->type != T_NUMBER)
                   error ("*Indexing a buffer with an illegal type.");
 
-                if (((sp - 1)->u.number > (int64_t)sp->u.buf->size) || ((sp - 1)->u.number < 0))
+                if (((sp - 1)->u.number > (int64_t)sp->u.buf->size) || ((sp - 1)->u.number <= 0))
                   error ("*Buffer index out of bounds.");
                 i = sp->u.buf->size - (int)(sp - 1)->u.number;
 
